@@ -46,7 +46,7 @@ MODEL_SOURCE = {
     "C12": B_KEYS + B_SKIP + B_FILTER + B_WM + B_TABLE + B_KWAY + B_WAL + B_LEVEL + B_MEM + B_DB + B_TXN + B_ORACLE,
     "C13": B_WM,
     "C15": B_DB + B_TXN + B_ORACLE + B_WM + [".:memtable.set", ".:memtable.freeze", ".:memtable.reset"],
-    "C16": B_FILTER,
+    "C16": B_FILTER + [".:levelManager.recover", ".:levelManager.flushToL0", ".:levelManager.compactL0", ".:levelManager.compactLN", ".:levelManager.searchLowerBound"],
     "C17": B_SKIP + B_KEYS,
 }
 
@@ -192,12 +192,12 @@ PROPS = {
     },
     "C16": {
         "lean": "Originium.Props.C16",
-        "suites": ["key", "filter"],
+        "suites": ["key", "filter", "levels"],
         "skeleton_funcs": [],
         "trusted_base": COMMON_TB + ["murmur3 is an arbitrary hash family (the harness feeds the real hash values to the model)",
                                      "floating point sizing of the filter: m > 0 is checked by the harness for n = 1..N, not proved"],
         "assumptions": ["m > 0"],
-        "explanation": "no false negatives for every hash family, k, m > 0 and entry list",
+        "explanation": "no false negatives for every hash family, k, m > 0 and entry list; the places where the engine builds filters (flush, compaction, recovery) are fingerprinted and every table's filter is asked for every key of the table after each of them (levels suite)",
     },
     "C17": {
         "lean": "Originium.Props.C17",
